@@ -338,6 +338,10 @@ func c15Accept(quick bool) *Scenario {
 									fi2.AllowArray(true)
 								}
 								h := fi2.Wrap()
+								// later changes to the FuncInfo (and another Wrap) must not reach the handler already built
+								fi2.SetStrict(!strict)
+								fi2.AllowArray(!allowArray)
+								_ = fi2.Wrap()
 								for _, ps := range c15ParamsFor(at) {
 									rec.calls = 0
 									rec.args = nil
